@@ -63,6 +63,10 @@ EventAgrees(ev, t, r) ==
 TrFinish ==
     /\ l <= Len(Rec) /\ cur # 0
     /\ Finish(cur)
+    \* the specification's result for this test is the test alone on the deployment state, reported exactly
+    /\ results'[cur].res = RunAlone(suite[cur])
+    /\ results'[cur].passed = Passed(suite[cur], RunAlone(suite[cur]))
+    /\ (suite[cur].beh = "read") => results'[cur].res.logs = <<Deploy[suite[cur].key]>>
     /\ EventAgrees(Rec[l].results[k], suite[cur], results'[cur])
     /\ cur' = 0 /\ k' = k + 1 /\ l' = l
     /\ TLCSet(2, k + 1)
